@@ -219,7 +219,24 @@ func wsPath(kind, a, b string) (escaped, decoded string) {
 	return "/session/" + a, "/session/" + a
 }
 
-func genRelay(r *lib.Rng, n int, e *acc.Env) Item {
+// prefixScopes is the dimension "prefix claim x scopes" of the token whose code the attempts present
+// (force < 0: drawn at random, mostly plain session tokens).
+var prefixScopes = func() (out []struct {
+	prefix string
+	scopes []string
+}) {
+	for _, p := range []string{"shell", "Session", "other", "session ", ""} {
+		for _, sc := range [][]string{{"host"}, {"client"}, {"host", "client"}, {"read"}, {"read", "write"}, {"Read", "WRITE"}} {
+			out = append(out, struct {
+				prefix string
+				scopes []string
+			}{p, sc})
+		}
+	}
+	return
+}()
+
+func genRelay(r *lib.Rng, n int, e *acc.Env, force int) Item {
 	now := time.Now().Unix()
 	name := "c01-" + strconv.Itoa(n)
 	a := "A" + name
@@ -236,7 +253,19 @@ func genRelay(r *lib.Rng, n int, e *acc.Env) Item {
 	}
 	sP := ses(a, "bkP-"+name, []string{"read", "write"})
 	sC := ses(a, "bkC-"+name, []string{"read"})
-	sA := ses(a, "bkA-"+name, [][]string{{"read", "write"}, {"read", "write"}, {"read"}, {"write"}, {"execute"}}[r.Intn(5)])
+	sA := ses(a, "bkA-"+name, [][]string{{"read", "write"}, {"read", "write"}, {"read"}, {"write"}, {"execute"}, {"host"}, {"client"}}[r.Intn(7)])
+	if force < 0 && r.Chance(1, 5) {
+		force = r.Intn(len(prefixScopes))
+	}
+	if force >= 0 {
+		// a token for another connection type (or none): the access API still issues a code for it; whatever the
+		// uri it returns says, the code is presented on /session/{topic} below
+		ps := prefixScopes[force%len(prefixScopes)]
+		sA.Auth.Claims["prefix"] = ps.prefix
+		sA.Auth.Claims["scopes"] = ps.scopes
+		sA.Auth.Label = "prefix:" + ps.prefix
+		sA.Label = "prefix-claim"
+	}
 	sB := ses(b, "bkB-"+name, []string{"read", "write"})
 	sX := ses(a, "bkX-"+name, []string{"read", "write"})
 	sX.Auth = acc.Mutate(sX.Auth, r.Intn(len(acc.Mutations)), now, e.Cfg.Host)
@@ -249,6 +278,12 @@ func genRelay(r *lib.Rng, n int, e *acc.Env) Item {
 	k := r.Range(3, 5)
 	for i := 0; i < k; i++ {
 		p := plans[r.Intn(len(plans))]
+		if force >= 0 && i == 0 {
+			p = plans[0] // first of all: the issued code on /session/{topic}
+		}
+		if force >= 0 && i == 1 {
+			p = plan{"prefix-shell", "a", "shell"} // and on the path the returned uri names
+		}
 		esc, dec := wsPath(p.path, a, b)
 		ref := acc.CodeRef{Kind: p.code}
 		switch p.code {
@@ -267,6 +302,15 @@ func genRelay(r *lib.Rng, n int, e *acc.Env) Item {
 	}
 	it.H = &acc.Case{Name: name, T0: now, Ops: ops, Cfg: e.Cfg, Mode: "real"}
 	return it
+}
+
+func hasScope(l []string, x string) bool {
+	for _, y := range l {
+		if y == x {
+			return true
+		}
+	}
+	return false
 }
 
 // inbox collects what each connection of a case receives.
@@ -358,6 +402,7 @@ func oracleRelay(it Item, idx int, res *lib.Result) {
 	// topic and with which claims; which codes have been presented already
 	type grant struct {
 		topic  string
+		prefix string
 		scopes []string
 		exp    int64
 	}
@@ -368,7 +413,7 @@ func oracleRelay(it Item, idx int, res *lib.Result) {
 		out := c.Outs[i]
 		if o.K == "req" && o.Req.Route == "session" && out.Status == 200 && out.Body == "uri" {
 			cl := o.Req.Auth.Classify().Claims
-			g := grant{topic: o.Req.ID, scopes: cl.Scopes}
+			g := grant{topic: o.Req.ID, prefix: cl.Prefix, scopes: cl.Scopes}
 			if cl.Exp != nil {
 				g.exp = *cl.Exp
 			}
@@ -409,6 +454,12 @@ func oracleRelay(it Item, idx int, res *lib.Result) {
 			default:
 				if strings.Join(g.scopes, ",") != strings.Join(m.Scopes, ",") || g.exp != m.Exp {
 					bad("join-not-bound-to-token", fmt.Sprintf("token scopes %v exp %d, connection listed with scopes %v exp %d", g.scopes, g.exp, m.Scopes, m.Exp))
+				}
+				canR, canW := hasScope(g.scopes, "read"), hasScope(g.scopes, "write")
+				if !canR && !canW {
+					bad("joined-without-read-or-write", fmt.Sprintf("listed as connected to topic %s although its token (prefix claim %q, scopes %v) carries neither \"read\" nor \"write\" (listed can_read=%v can_write=%v)", m.Topic, g.prefix, g.scopes, m.Read, m.Write))
+				} else if m.Read != canR || m.Write != canW {
+					bad("join-not-bound-to-token", fmt.Sprintf("token scopes %v, connection listed with can_read=%v can_write=%v", g.scopes, m.Read, m.Write))
 				}
 			}
 		} else if w.UA > 2 {
@@ -536,7 +587,13 @@ func work(a lib.Args) {
 			n++
 		}
 		for i := 0; i < a.Pick(45, 600); i++ {
-			items = append(items, genRelay(rng.Fork(), n, real))
+			items = append(items, genRelay(rng.Fork(), n, real, -1))
+			n++
+		}
+		// every prefix claim that is not "session" (shell, other case, other word, trailing space, empty) with
+		// scopes of the other connection type, of this one, and look-alikes: code presented on /session/{topic}
+		for k := range prefixScopes {
+			items = append(items, genRelay(rng.Fork(), n, real, k))
 			n++
 		}
 		// stateful session histories: a small pool of bearers (long-lived, expiring, not yet valid, issued in the
